@@ -83,16 +83,6 @@ end CV.Props.C09
 
 namespace CV.Props.C09
 
-/-- (facts, regenerated from the source on every run) **The decision logic the model transcribes is the
-    decision logic of the current source**: the derived reads (`Count` with its stored-size shortcut `countCollection`, `Exists`, `FindFirst`) — what `Op.body (.count/.exists_/.findFirst)` and `countWindow` transcribe.  The text is the functions' bodies with comments and layout
-    removed.  Any edit of these functions breaks this theorem at build time; the check then searches
-    with the property's own oracles for a failing input (and reports `no-failing-input-found` if the
-    edit was harmless: the model then has to be re-validated against the new text). -/
-theorem source_decision_logic : CV.Facts.logicC09 = [
-  "clover.DB.Count: { q, err := normalizeCriteria(q) if err != nil { return -1, err } if q.Criteria() == nil { return db.countCollection(q) } num := 0 err = db.IterateDocs(q, func(doc *d.Document) error { num++ return nil }) return num, err }", 
-  "clover.DB.Exists: { doc, err := db.FindFirst(q) return doc != nil, err }", 
-  "clover.DB.FindFirst: { docs, err := db.FindAll(q.Limit(1)) var doc *d.Document if len(docs) > 0 { doc = docs[0] } return doc, err }", 
-  "clover.DB.countCollection: { size, err := db.getCollectionSize(q.Collection()) size -= q.GetSkip() if size < 0 { size = 0 } if q.GetLimit() >= 0 && q.GetLimit() < size { return q.GetLimit(), err } return size, err }"] := by rfl
 
 /-- **The derived reads agree with `FindAll` whatever plan serves the query** — no domain hypothesis at
     all: for every index set, criteria, sort and window, on the model's own answers, `Count` (with
@@ -137,3 +127,26 @@ theorem forEach_up_to_ties_any_plan (s : Spec.State) (σ : KVS) (hw : WF s) (hr 
   forEach_classwise_any_plan likeFn fnFam s σ hw hr q k coll hl hdomain hsd hnn
 
 end CV.Props.C09
+
+-- SOURCE-TEXT-BEGIN (generated by tools/mk_source_theorems.py; do not edit by hand)
+namespace CV.Props.C09
+
+/-- (facts, regenerated from the source on every run) **The source text the model transcribes is the text of the
+    current source**: the bodies (comments and layout removed) of the 10 functions the model behind C09 was written from and
+    validated against.  Any edit of one of them breaks this theorem at build time; the check then searches with the
+    property's own oracles for a failing input, and reports `no-failing-input-found` if it finds none: the model then
+    has to be re-validated against the new text (and this block regenerated). -/
+theorem source_decision_logic : CV.Facts.logicC09 = [
+  "clover..getDocumentById: { value, err := tx.Get([]byte(getDocumentKey(collectionName, id))) if value == nil || err != nil { return nil, err } return d.Decode(value) }", 
+  "clover.DB.Count: { q, err := normalizeCriteria(q) if err != nil { return -1, err } if q.Criteria() == nil { return db.countCollection(q) } num := 0 err = db.IterateDocs(q, func(doc *d.Document) error { num++ return nil }) return num, err }", 
+  "clover.DB.Exists: { doc, err := db.FindFirst(q) return doc != nil, err }", 
+  "clover.DB.FindAll: { q, err := normalizeCriteria(q) if err != nil { return nil, err } docs := make([]*d.Document, 0) err = db.IterateDocs(q, func(doc *d.Document) error { docs = append(docs, doc) return nil }) return docs, err }", 
+  "clover.DB.FindById: { tx, err := db.store.Begin(false) if err != nil { return nil, err } defer tx.Rollback() ok, err := db.hasCollection(collection, tx) if err != nil { return nil, err } if !ok { return nil, ErrCollectionNotExist } return getDocumentById(collection, id, tx) }", 
+  "clover.DB.FindFirst: { docs, err := db.FindAll(q.Limit(1)) var doc *d.Document if len(docs) > 0 { doc = docs[0] } return doc, err }", 
+  "clover.DB.ForEach: { q, err := normalizeCriteria(q) if err != nil { return err } return db.IterateDocs(q, func(doc *d.Document) error { if !consumer(doc) { return internal.ErrStopIteration } return nil }) }", 
+  "clover.DB.IterateDocs: { tx, err := db.store.Begin(false) if err != nil { return err } defer tx.Rollback() return db.iterateDocs(tx, q, consumer) }", 
+  "clover.DB.countCollection: { size, err := db.getCollectionSize(q.Collection()) size -= q.GetSkip() if size < 0 { size = 0 } if q.GetLimit() >= 0 && q.GetLimit() < size { return q.GetLimit(), err } return size, err }", 
+  "clover.DB.getCollectionSize: { tx, err := db.store.Begin(false) if err != nil { return -1, err } defer tx.Rollback() meta, err := db.getCollectionMeta(collection, tx) if err != nil { return -1, err } return meta.Size, nil }"] := by rfl
+
+end CV.Props.C09
+-- SOURCE-TEXT-END
